@@ -153,27 +153,35 @@ struct Array {
 
     void operator+=(Type_T &&item) {
         if (Size() == Capacity()) {
+            // item can be an element of this array: take it before the storage is replaced.
+            Type_T tmp{Memory::Move(item)};
 #ifdef QENTEM_VERIF
             resize(Capacity() + SizeT{1}); // verification hook: exact-fit growth
 #else
             resize((Capacity() | (Capacity() == 0)) * SizeT{2});
 #endif
+            Memory::Initialize((Storage() + Size()), Memory::Move(tmp));
+        } else {
+            Memory::Initialize((Storage() + Size()), Memory::Move(item));
         }
 
-        Memory::Initialize((Storage() + Size()), Memory::Move(item));
         ++index_;
     }
 
     inline void operator+=(const Type_T &item) {
         if (Size() == Capacity()) {
+            // item can be an element of this array: copy it before the storage is replaced.
+            Type_T tmp{item};
 #ifdef QENTEM_VERIF
             resize(Capacity() + SizeT{1}); // verification hook: exact-fit growth
 #else
             resize((Capacity() | (Capacity() == 0)) * SizeT{2});
 #endif
+            Memory::Initialize((Storage() + Size()), Memory::Move(tmp));
+        } else {
+            Memory::Initialize((Storage() + Size()), item);
         }
 
-        Memory::Initialize((Storage() + Size()), item);
         ++index_;
     }
 
